@@ -109,6 +109,7 @@ type nnsOp struct {
 	name   string
 	who    string // owner param / to / admin: U1 U2 P D nil
 	years  int64
+	life   int64 // regTLD: lifetime in seconds (ten years unless set)
 	typ    int
 	id     int
 	data   string
@@ -141,7 +142,9 @@ func NewNNSDriver(mode string) *NNSDriver {
 	switch mode {
 	case "C10":
 		d.names = []string{"aa.com", "bb.com", "x.aa.com", "y.x.aa.com", "aa.org"}
-		add(nnsOp{kind: "regTLD", name: "org", signer: s("Cm")}, nnsOp{kind: "regTLD", name: "org", signer: s("U1")})
+		// the second TLD lives 2000 s only: the clock steps take it past its end while names under it are still alive
+		// (parent chain broken at the TLD link, re-registration of an expired TLD)
+		add(nnsOp{kind: "regTLD", name: "org", signer: s("Cm"), life: 2000}, nnsOp{kind: "regTLD", name: "org", signer: s("U1"), life: 2000})
 		for _, n := range d.names {
 			add(nnsOp{kind: "register", name: n, who: "U1", signer: s("U1")}, nnsOp{kind: "register", name: n, who: "U2", signer: s("U2")})
 		}
@@ -567,12 +570,16 @@ func (d *NNSDriver) Step(x *Exec, n *Node, i int) StepResult {
 	tld := len(fr) == 1
 	switch o.kind {
 	case "regTLD":
-		scr = Script(h, "registerTLD", o.name, "e@x.y", int64(3600), int64(600), int64(10*365*24*3600), int64(3600))
+		life := int64(10 * 365 * 24 * 3600)
+		if o.life > 0 {
+			life = o.life
+		}
+		scr = Script(h, "registerTLD", o.name, "e@x.y", int64(3600), int64(600), life, int64(3600))
 		if !committee || (m.roots[o.name] && m.alive(o.name)) {
 			expHalt = false
 		} else {
 			nm.roots[o.name] = true
-			nm.names[o.name] = nameRec{exp: m.now + uint64(10*365*24*3600)*1000}
+			nm.names[o.name] = nameRec{exp: m.now + uint64(life)*1000}
 			nm.soa[o.name], nm.mail[o.name] = m.now, "e@x.y"
 		}
 	case "setPrice":
